@@ -33,7 +33,7 @@ def discharge(ex, ob, timeout_ms):
         neg = z3.Not(g)
         idx = smt.relevant(allc, smt.symbols(neg))
         s2 = z3.Solver()
-        s2.set('timeout', max(timeout_ms, 60000))
+        s2.set('timeout', int(os.environ.get('VERIF_NRA_MS', '0')) or max(timeout_ms, 60000))
         for i in sorted(idx):
             s2.add(allc[i])
         s2.add(neg)
@@ -50,6 +50,18 @@ def discharge(ex, ob, timeout_ms):
     if r == z3.unsat:
         ob.status = 'proved'
         ob.extra['by'] = 'z3'
+        if os.environ.get('VERIF_CROSSCHECK'):
+            # thorough tier: second opinion from cvc5 on the same query
+            from engine import smt
+            r3 = smt.cross_check(list(ex.axioms) + list(ob.pc),
+                                 z3.BoolVal(True) if z3.is_false(g)
+                                 else z3.Not(g), timeout_s=20)
+            ob.extra['cvc5'] = r3
+            if r3 == 'unsat':
+                ob.extra['by'] = 'z3+cvc5'
+            elif r3 == 'sat':
+                ob.status = 'undecided'
+                ob.extra['by'] = 'z3 says proved, cvc5 says refuted'
     elif r == z3.sat:
         ob.status = 'refuted'
     else:
